@@ -76,6 +76,8 @@ func rulesC17(c *Ctx) {
 	R := c.R
 	R.Rule("R1", "Melt / melt-quote poll custody table", 14)
 	R.Rule("R2", "Send, swap-to-send, receive, mint, reclaim custody ordering", 9)
+	R.Rule("R8", "melt reconciliation is complete: for every melt quote not yet recorded PAID a PAID answer removes its pending record and an UNPAID answer gives its pending proofs back", 2)
+	c.c17ReconcileComplete()
 	R.Rule("R3", "balances are whole-bucket sums", 3)
 	R.Rule("R4", "active-keyset refresh writes the mint entry back", 2)
 	R.Rule("R5", "the wallet's fee functions agree with the mint's: one ceil over the summed per-proof ppk of each proof's own keyset (shared with C18.R3)", 2)
@@ -999,4 +1001,43 @@ func (c *Ctx) c17ChangeNotDropped() {
 	if n == 0 {
 		R.Unresolved("R7", "change signatures", "no wallet operation reads change signatures")
 	}
+}
+
+// c17ReconcileComplete: R8. In the melt-quote check of the wallet the only excuses for not acting on the mint's
+// answer are: the quote is already recorded PAID locally, the answer is a different state, or (for UNPAID)
+// there are no pending proofs under the quote. In particular the action must not depend on the local quote
+// being recorded PENDING: a melt whose answer was lost leaves the quote UNPAID locally with its proofs pending.
+func (c *Ctx) c17ReconcileComplete() {
+	f := c.fn("R8", "wallet.(*Wallet).CheckMeltQuoteState")
+	paid, ok1 := c.P.ConstVal("cashu/nuts/nut05", "Paid")
+	unpaid, ok2 := c.P.ConstVal("cashu/nuts/nut05", "Unpaid")
+	if f == nil || !ok1 || !ok2 {
+		return
+	}
+	stateOf := func(e *Ex, src string) bool {
+		return isField(e, "State") && strings.Contains(e.Args[0].String(), src)
+	}
+	const local, answer = "GetMeltQuoteById(", "wallet/client.GetMeltQuoteState#0("
+	alreadyPaid := &Cond{Name: "quote already recorded PAID", Match: func(ft *Fact, _ *Origins) bool {
+		return ft.Kind == "cmp" && ft.Op.String() == "==" && stateOf(ft.A, local) && isConst(ft.B, paid) && ft.Pos
+	}}
+	answerNot := func(k string) *Cond {
+		return &Cond{Name: "answer is another state", Match: func(ft *Fact, _ *Origins) bool {
+			if ft.Kind != "cmp" || ft.Op.String() != "==" || !stateOf(ft.A, answer) || ft.B.K != "const" {
+				return false
+			}
+			return (!ft.Pos && isConst(ft.B, k)) || (ft.Pos && !isConst(ft.B, k))
+		}}
+	}
+	noPending := &Cond{Name: "no pending proofs under the quote", Match: func(ft *Fact, _ *Origins) bool {
+		x := lenZero(ft)
+		return x != nil && strings.Contains(x.String(), "GetPendingProofsByQuoteId(")
+	}}
+	walletDB := func(name string) func(d *CallDesc) bool {
+		return func(d *CallDesc) bool { return d.Iface != nil && d.Iface.Name() == name }
+	}
+	c.ruleMustHit("R8", "PAID answer => pending record removed", "unless the quote is already recorded PAID, a PAID answer removes the melt's pending record", f,
+		[]*Cond{alreadyPaid, answerNot(paid)}, walletDB("DeletePendingProofsByQuoteId"))
+	c.ruleMustHit("R8", "UNPAID answer => pending proofs given back", "unless the quote is already recorded PAID, an UNPAID answer returns the melt's pending proofs to the spendable bucket", f,
+		[]*Cond{alreadyPaid, answerNot(unpaid), noPending}, walletDB("SaveProofs"))
 }
